@@ -505,7 +505,21 @@ def lib_one(run, libname, lib, autos, calls, words):
     except Exception as ex:  # noqa
         import traceback
         ob.set(INCONCLUSIVE, f"engine error {ex!r} {traceback.format_exc()[-300:]}")
+    lib_tag_replay(ob)
     run.log(f"{ob.status:12s} {oid} {ob.solver or ''} {ob.solver_s:.1f}s/{time.time() - t0:.1f}s {ob.detail[:200]}")
+
+
+def lib_tag_replay(ob):
+    """`./check C19 --replay f` asks every part in turn unless the payload names its part (C19_A's replay
+    answers 2 = unknown kind for the engine-C kinds): name it."""
+    if ob.status == VIOLATION and ob.replay:
+        try:
+            d = json.load(open(ob.replay))
+            if d.get("engine_part") != "C":
+                d["engine_part"] = "C"
+                json.dump(d, open(ob.replay, "w"), indent=1)
+        except Exception:  # noqa
+            pass
 
 
 def lib_table_facts(system):
@@ -566,6 +580,10 @@ def lib_table_obligation(run, libname, lib, system, cx):
     if table is None:
         return ob.set(INCONCLUSIVE, "expected exactly one automaton lookup")
     K = len(autos)
+    if any(len(r) != 4 for r in table):
+        path = run.write_replay(ob, dict(kind="c19-libtable", engine_part="C", ax=cx, what="arity"))
+        ob.nontrivial = False
+        return ob.set(VIOLATION, f"the automaton lookup does not relate the four columns (source state, letter, target state, marker): its rows have {sorted({len(r) for r in table})} components", replay=path)
     mx = max(r[0] for r in table) + 1
 
     def pred(name, rows):
@@ -577,7 +595,7 @@ def lib_table_obligation(run, libname, lib, system, cx):
 
     head = ["(set-logic ALL)", pred("tab", table)]
     offs = [f"o{j}" for j in range(K)]
-    decl = [f"(declare-const {o} Int)(assert (and (<= 1 {o}) (<= {o} {mx})))" for o in offs]
+    decl = [f"(declare-const {o} Int)(assert (and (<= 0 {o}) (<= {o} {mx})))" for o in offs]
     place = []
     for j, a in enumerate(autos):
         for s, b, t, m in a.raw:
@@ -594,15 +612,23 @@ def lib_table_obligation(run, libname, lib, system, cx):
     def fail(kind, detail, solver=None, **kw):
         g = lib_table_ground(table, autos)
         if g == []:
-            path = run.write_replay(ob, dict(kind="c19-libtable", ax=cx, what=kind, **kw))
+            path = run.write_replay(ob, dict(kind="c19-libtable", engine_part="C", ax=cx, what=kind, **kw))
             return ob.set(VIOLATION, detail, solver=solver, replay=path)
         return ob.set(INCONCLUSIVE, f"solver says '{kind}' but the ground re-evaluation on the dumped table finds offsets {g}")
 
+    nz = [f"(assert (not (= (+ {s} o{j}) 0)))" for j in range(K) for s in lib_used(autos[j])]
     # 1. existence of offsets (this satisfiable query is also the vacuity twin of the universal ones below)
-    r = solvers.solve("\n".join(head + decl + place + dis), timeout=60, get_values=offs)
+    r = solvers.solve("\n".join(head + decl + place + dis + nz), timeout=60, get_values=offs)
     ob.queries += 1
     ob.solver_s += r.time_s
     if r.status == "unsat":
+        r1 = solvers.solve("\n".join(head + decl + place + dis), timeout=60, get_values=offs)
+        ob.queries += 1
+        if r1.status == "sat":
+            o = [r1.model[x] for x in offs]
+            who = [lib[j][0] for j in range(K) if any(s + o[j] == 0 for s in lib_used(autos[j]))]
+            return fail("state-zero", f"state number 0 (source of the padding row (0,0,0,0), target of the final-state sentinels) is a state of automaton {'/'.join(who)} in the loaded lookup table (offsets {dict((lib[j][0], o[j]) for j in range(K))}); no placement avoids it",
+                        solver=r.solver, offsets=o)
         r2 = solvers.solve("\n".join(head + decl + place), timeout=60, get_values=offs)
         ob.queries += 1
         if r2.status == "sat":
@@ -610,7 +636,7 @@ def lib_table_obligation(run, libname, lib, system, cx):
             used = [set(s + o[j] for s in lib_used(autos[j])) for j in range(K)]
             clash = sorted((i, j, sorted(used[i] & used[j])) for i in range(K) for j in range(i) if used[i] & used[j])
             txt = "; ".join(f"{lib[j][0]} and {lib[i][0]} share state number(s) {c}" for i, j, c in clash)
-            return fail("overlap", f"the automata of one chip do not get disjoint state numbers in the shared lookup table: with the only placement of their transitions found (offsets {dict((lib[j][0], o[j]) for j in range(K))}) {txt} -- no choice of offsets gives both placement and disjointness",
+            return fail("overlap", f"the automata of one chip do not get disjoint state numbers in the shared lookup table: with the placement of their transitions that exists (offsets {dict((lib[j][0], o[j]) for j in range(K))}) {txt} -- no choice of offsets gives both placement and disjointness",
                         solver=r.solver, offsets=o)
         if r2.status == "unsat":
             return fail("missing-rows", "no choice of offsets places every automaton's transitions and final-state sentinels in the loaded lookup table", solver=r.solver)
@@ -679,6 +705,7 @@ def lib_jobs(run, tier):
             n = next(n for n in list(range(3 + (seed + j) % 2, 12)) if accepted_word(autos[j], n, seed) is not None)
             ws.append(accepted_word(autos[j], n, seed))
         calls = list(range(len(lib)))
+        jobs.append(lambda libname=libname, lib=lib, autos=autos, calls=calls, ws=ws: lib_one(run, libname, lib, autos, calls[::-1], ws[::-1]))
 
         def both(libname=libname, lib=lib, autos=autos, calls=calls, ws=ws):
             lib_one(run, libname, lib, autos, calls, ws)
@@ -689,11 +716,15 @@ def lib_jobs(run, tier):
                 lib_table_obligation(run, libname, lib, system, cengine.cx_args("automaton", "parse", params, ins, 10))
             except Exception as ex:  # noqa
                 import traceback
-                ob2 = core.Ob(f"C/parse-lib[{libname}]:table", "C", "merged lookup table = disjoint shifted copies of the library's automata")
-                run.add(ob2)
+                have = [o for o in run.obs if o.id == f"C/parse-lib[{libname}]:table"]
+                if have:
+                    ob2 = have[0]
+                else:
+                    ob2 = core.Ob(f"C/parse-lib[{libname}]:table", "C", "merged lookup table = disjoint shifted copies of the library's automata")
+                    run.add(ob2)
                 ob2.set(INCONCLUSIVE, f"engine error {ex!r} {traceback.format_exc()[-300:]}")
             for o in [o for o in run.obs if o.id == f"C/parse-lib[{libname}]:table"]:
-                run.log(f"{o.status:12s} {o.id} {o.solver or ''} {o.solver_s:.1f}s {o.detail[:240]}")
+                run.log(f"{o.status:12s} {o.id} {o.solver or ''} {(o.solver_s or 0):.1f}s {o.detail[:240]}")
         jobs.append(both)
     return jobs
 
@@ -707,7 +738,9 @@ def check(run):
         "engine C (C19): structure extracted at one honest witness per shape; state / marker / letter cells, the instance column and every other advice cell are symbolic",
         "engine C (C19): url-safe decoding is specified over the RFC 4648 section 5 alphabet; inputs come in as range-checked bytes (AssignedByte)",
     ]
-    run.outside += ["ParserGadget (fetch_bytes, date parsing) and the credential example circuits", "AutomatonChip with several automata in one table (state offsets beyond 1)"]
+    run.outside += ["ParserGadget (fetch_bytes, date parsing) and the credential example circuits",
+                    "AutomatonChip with more than 3 automata in one table, libraries other than the fixed {A: id=[0-9]+;+, B: any bytes, C: #[a-f]*} (2 and 3 of them), LibIndex types other than usize (the order in which from_collection hands out offsets is the FxHashMap iteration order of the keys 0..2)"]
+    run.bounds.append("engine C (C19): chips holding 2 / 3 automata (6, 1, 2 states): parse with every automaton of the library, input length 3..%s, one circuit with one parse call per automaton in library order and one in reverse order; merged table: every 4-tuple" % ("6" if tier == "quick" else "10"))
     table_lemma(run)          # first: on HOLDS the Base64 lookups are written with the RFC function
     jobs = parse_jobs(run, tier) + b64_jobs(run, tier) + lib_jobs(run, tier)
     with ThreadPoolExecutor(8) as ex:
@@ -726,6 +759,9 @@ def replay(payload):
         p = subprocess.run([A.AXBIN] + payload["ax"], capture_output=True, text=True)
         system = csmt.System(json.loads(p.stdout), csmt.P_BLS)
         table, autos = lib_table_facts(system)
+        if any(len(r) != 4 for r in table):
+            print("rows of the automaton lookup of the real chip have", sorted({len(r) for r in table}), "components instead of 4")
+            return 1
         g = lib_table_ground(table, autos)
         print("merged lookup table loaded by the real chip:", len(table), "rows; offsets with placement + disjoint state numbers + exactness:", g if g else "NONE", "; recorded:", payload.get("what"), payload.get("offsets"), payload.get("tuple"))
         return 1 if g == [] else 0
